@@ -9,16 +9,21 @@ def run(c):
               "ties, metric/group/namespace weights 1..1000 incl. unknown/zero, fair keys of length 0-3 with invalid indices, fixed per-metric "
               "budgets around the metric size, NoSampleAgent, rows with size<1, stale/missing MetricMeta), all 2^7 option combinations, "
               "budgets around sum(size)*{0.1,0.3,0.5,0.9,1,1.5} and sum-1; mode mix rand 80% (real selectRandom/roundSampleFactor), "
-              "det 10%, quota 10%. Non-trivial = run in which at least one row was kept unconditionally and at least one row was "
-              "sampled (handed to the selector or discarded); distinct by op-sequence hash")
+              "det 10%, quota 10%. Every 8th case runs the REAL (*agent.Shard).sampleBucket on a bucket of ordinary, NoSampleAgent and "
+              "ingestion-status rows (counts are distinct powers of two so the factor of every sent row is exact; cases with a size/weight "
+              "tie between metrics are skipped) against SH.Sampler.agentBucket; every 16th case compares 20 random keys/rows with the models of "
+              "Key.TLSizeEstimate, MultiItem.TLSizeEstimate, RowBinarySizeEstimate. Non-trivial = run in which at least one row was kept "
+              "unconditionally and at least one row was sampled (handed to the selector or discarded) / agent case with bypassed and sampled "
+              "rows; distinct by op-sequence hash")
     c.assumptions += [
         "PRNG: the draws consumed by the real selectRandom/roundSampleFactor are observed (generator state cloned around the calls) and replayed; theorems quantify over every draw stream",
         "ties of Go's unstable sort.Slice are resolved in the model by the observed processing order (Item.rank); theorems hold for every rank assignment",
         "exact domain: sizes/weights/budgets whose products stay below 2^53, sample factors compared as the IEEE bits of float64(num)/float64(den); cases with a draw within 1e-9 of a decision boundary are skipped (counted in input_distribution.skipped.ambiguous)",
         "int64 overflow of sumSize*weight is not modelled (Int); MultiValueToTL/multiValueMarshal scaling count, sum and sum of squares linearly by SF is assumed, not modelled (C02 covers the transfer)",
-        "sampleBucket's own NoSampleAgent bypass (agent_shard_send.go) and the aggregator's KeepBuiltin path are not executed by the harness",
+        "agent cases: per accounted metric the harness compares how many rows were sent with factor 1 / with the metric's factor (bits) / dropped, not which rows (the order of equal keys after Go's unstable sort is unobservable through sampleBucket); draws are read from a clone of the generator handed to sampleBucket",
+        "the aggregator's KeepBuiltin path (statistics only) is not executed by the harness",
     ]
-    c.prove("SH.Props.C05", extra_files=["SH/Model/Sampler.lean", "SH/Model/SamplerIO.lean", "SH/Lemmas/Sampler.lean"])
+    c.prove("SH.Props.C05", extra_files=["SH/Model/Sampler.lean", "SH/Model/SamplerIO.lean", "SH/Lemmas/Sampler.lean", "SH/Lemmas/SamplerTree.lean"])
     drv = c.driver(DRIVER)
     binary = c.go_build(HARNESS)
     if binary and drv:
@@ -45,13 +50,18 @@ META = {
              "satisfies u*sf<1, carrying that sf>1' or 'rejected by Add (size<1)' (kept_factor_is_inverse_probability, kept_factor_ge_one); "
              "factor x keep-probability lies in [1, 1+sf/2^53) so count/sum/sumsq keep their expectation (keep_iff_below_threshold, "
              "threshold_bounds, expectation_preserved); in agent mode every accepted row of a NoSampleAgent metric is kept with factor 1 "
-             "(no_sample_agent_kept, end to end through all hierarchy levels, all modes, both variants). The model is tied to the "
+             "(no_sample_agent_kept, end to end through all hierarchy levels, all modes, both variants) and sampleBucket's own bypass sends rows of "
+             "NoSampleAgent metrics whole (agent_no_sample_kept over agentBucket, tied to the real Shard.sampleBucket); the sizes handed to Add are "
+             ">= 20 (agent) and >= 72 (aggregator) for every key and row (agent_row_size_ge_20, aggregator_row_size_ge_72 over models of the size "
+             "estimates tied to the real functions), hence Add's size<1 / MaxFloat32 branch is unreachable from sampleBucket and from the insert "
+             "path (add_discard_unreachable). The model is tied to the "
              "code by replaying every generated bucket on the real sampler and on the compiled model and diffing every row's decision, "
              "factor bits, quota and the MetricGroups statistics."),
     "note": ("Genuine defect found and fixed by fixes/C05-sample-fit.diff: an over-quota fixed-budget metric stops the keep loop, later groups that fit "
              "reach sample() with sf<=1; a single row is then kept with factor sf<1 (oracle sig kept-factor-below-one; Lean witness "
              "orig_keeps_row_with_factor_below_one). The model/theorems describe the fixed code (Variant.fitKeep); the pinned code is Variant.orig. "
-             "No theorem is partial; the exception 'rows with size estimate < 1 are discarded by Add with factor MaxFloat32' is part of the statement. Trusted: Lean kernel, "
+             "No theorem is partial. The exception 'rows with size estimate < 1 are discarded by Add with factor MaxFloat32' is shown unreachable from the agent and the "
+             "insert path; calcHostMetricBudgets can reach it with an agent-reported original size 0 (quota mode, the row gets no budget; exercised by the C06 host cases). Trusted: Lean kernel, "
              "correspondence on generated buckets (quick 2500, thorough 60000), float64 division being correctly rounded."),
     "design_ref": "DESIGN.md §6 C05",
 }
